@@ -313,6 +313,9 @@ func Replay(c Case) Result {
 	if c.Cfg.Moment == "ping" {
 		return replayPing(c)
 	}
+	if c.Cfg.Moment == "srvping" {
+		return replaySrvPing(c)
+	}
 	res := Result{N: c.N, Cfg: c.Cfg}
 	r := &rec{}
 	ln, err := net.Listen("tcp", "127.0.0.1:0")
@@ -661,4 +664,171 @@ func sendGuarded(client *lime.Client, m *lime.Message, d time.Duration) error {
 	case <-time.After(d + 3*time.Second):
 		return errHang
 	}
+}
+
+// replaySrvPing: a Server made with ServerBuilder.AutoReplyPings and a request handler of its own, driven by
+// a raw client: a ping that carries a delegation node is answered to that node with the ping resource and its
+// type (C11); a request for another resource whose path merely starts like the ping's goes to the
+// application's handler, once, and is not answered by the ping handler (C04); a request without uri does not
+// bring the process down (C02).
+func replaySrvPing(c Case) Result {
+	res := Result{N: c.N, Cfg: c.Cfg}
+	r := &rec{}
+	var srv *lime.Server
+	var addr *net.TCPAddr
+	started := false
+	done := make(chan error, 1)
+	for try := 0; try < 30 && !started; try++ {
+		l, err := net.Listen("tcp", "127.0.0.1:0")
+		if err != nil {
+			continue
+		}
+		addr = l.Addr().(*net.TCPAddr)
+		l.Close()
+		b := lime.NewServerBuilder().Name("postmaster").Domain("example.com").Instance("srv").
+			ListenTCP(addr, &lime.TCPConfig{}).EnableGuestAuthentication().AutoReplyPings().
+			RequestCommandsHandlerFunc(func(ctx context.Context, cmd *lime.RequestCommand, s lime.Sender) error {
+				path := ""
+				if cmd.URI != nil {
+					path = cmd.URI.Path()
+				}
+				r.log(Event{K: "ownreq", Tag: path})
+				return nil
+			})
+		srv = b.Build()
+		go func(s *lime.Server) { done <- s.ListenAndServe() }(srv)
+		select {
+		case <-done:
+		case <-time.After(40 * time.Millisecond):
+			started = true
+		}
+	}
+	if !started {
+		res.Note = "server did not start"
+		return res
+	}
+	defer srv.Close()
+	handshake := func() (net.Conn, *json.Decoder, string, error) {
+		cn, err := net.DialTimeout("tcp", addr.String(), 2*time.Second)
+		if err != nil {
+			return nil, nil, "", err
+		}
+		cn.SetDeadline(time.Now().Add(4 * time.Second))
+		dec := json.NewDecoder(bufio.NewReader(cn))
+		var m map[string]interface{}
+		fmt.Fprintf(cn, `{"state":"new"}`+"\n")
+		if err := dec.Decode(&m); err != nil {
+			cn.Close()
+			return nil, nil, "", err
+		}
+		sid, _ := m["id"].(string)
+		if st, _ := m["state"].(string); st == "negotiating" { // take the cleartext options, wait for the confirmation
+			fmt.Fprintf(cn, `{"id":%q,"state":"negotiating","encryption":"none","compression":"none"}`+"\n", sid)
+			if err := dec.Decode(&m); err != nil {
+				cn.Close()
+				return nil, nil, "", err
+			}
+			if err := dec.Decode(&m); err != nil { // the authenticating request
+				cn.Close()
+				return nil, nil, "", err
+			}
+		}
+		me := "0f1b2c3d-4e5f-4a6b-8c7d-9e0f1a2b3c4d@example.com/home"
+		fmt.Fprintf(cn, `{"id":%q,"from":%q,"state":"authenticating","scheme":"guest","authentication":{}}`+"\n", sid, me)
+		if err := dec.Decode(&m); err != nil {
+			cn.Close()
+			return nil, nil, "", err
+		}
+		if st, _ := m["state"].(string); st != "established" {
+			cn.Close()
+			return nil, nil, "", fmt.Errorf("state %v %v", m["state"], m["reason"])
+		}
+		return cn, dec, me, nil
+	}
+	cn, dec, me, err := handshake()
+	if err != nil {
+		res.Note = "handshake: " + err.Error()
+		return res
+	}
+	r.log(Event{K: "session", N: 1})
+	r.log(Event{K: "released", N: 1}) // (this harness does not look at connections)
+	// 1. a ping on behalf of somebody else
+	fmt.Fprintf(cn, `{"id":"p1","from":%q,"pp":"deleg@example.com/x","method":"get","uri":"/ping"}`+"\n", me)
+	why := "none"
+	for {
+		var raw json.RawMessage
+		cn.SetReadDeadline(time.Now().Add(1500 * time.Millisecond))
+		if err := dec.Decode(&raw); err != nil {
+			break
+		}
+		var m map[string]interface{}
+		if json.Unmarshal(raw, &m) != nil || m["id"] != "p1" {
+			continue
+		}
+		var rc lime.ResponseCommand
+		switch {
+		case json.Unmarshal(raw, &rc) != nil:
+			why = "undecodable"
+		case rc.Status != lime.CommandStatusSuccess || rc.Method != lime.CommandMethodGet:
+			why = "status-or-method"
+		case rc.Resource == nil || rc.Type == nil || rc.Type.String() != "application/vnd.lime.ping+json":
+			why = "resource-or-type"
+		case rc.To.String() != "deleg@example.com/x":
+			why = "addressed-to-" + rc.To.String()
+		default:
+			why = "ok"
+		}
+		break
+	}
+	r.log(Event{K: "pingreply", Res: why})
+	// 2. not a ping: the application's business
+	fmt.Fprintf(cn, `{"id":"p2","from":%q,"method":"get","uri":"/pings"}`+"\n", me)
+	waitFor(func() bool { return r.has("ownreq", "/pings") }, 1500*time.Millisecond)
+	own := "ok"
+	if n := func() int {
+		r.mu.Lock()
+		defer r.mu.Unlock()
+		k := 0
+		for _, e := range r.evs {
+			if e.K == "ownreq" && e.Tag == "/pings" {
+				k++
+			}
+		}
+		return k
+	}(); n != 1 {
+		own = fmt.Sprintf("delivered-%d-times", n)
+	}
+	hij := "n"
+	cn.SetReadDeadline(time.Now().Add(300 * time.Millisecond))
+	for {
+		var m map[string]interface{}
+		if err := dec.Decode(&m); err != nil {
+			break
+		}
+		if m["id"] == "p2" {
+			hij = "y"
+		}
+	}
+	if hij == "y" {
+		own += "+answered-by-somebody"
+	}
+	r.log(Event{K: "srvown", Res: own})
+	cn.Close()
+	// 3. a request without uri (on a session of its own: it is not a valid envelope and ends that session)
+	if cn2, _, _, err := handshake(); err == nil {
+		fmt.Fprintf(cn2, `{"id":"j1","method":"get"}`+"\n")
+		time.Sleep(150 * time.Millisecond)
+		cn2.Close()
+	}
+	alive := "n"
+	if cn3, _, _, err := handshake(); err == nil {
+		alive = "y"
+		cn3.Close()
+	}
+	r.log(Event{K: "srvalive", Res: alive})
+	r.log(Event{K: "end", Res: "closed"})
+	r.mu.Lock()
+	res.Actual = append([]Event(nil), r.evs...)
+	r.mu.Unlock()
+	return res
 }
